@@ -164,7 +164,7 @@ impl FixtureDatabase {
             lemma_boff_mono(line@, k + o, k + o + 1);
             lemma_blen_split(line@, k + o + 1);
         } else {
-            lemma_boff_mono(line@, k, k + 12);
+            lemma_boff_mono(line@, k, k + 13);
         }
     }
 @return 4
@@ -298,7 +298,7 @@ impl FixtureDatabase {
             lemma_boff_mono(line@, k + o, k + o + 1);
             lemma_blen_split(line@, k + o + 1);
         } else {
-            lemma_boff_mono(line@, k, k + 12);
+            lemma_boff_mono(line@, k, k + 13);
         }
     }
 @return 4
@@ -365,9 +365,11 @@ proof fn lemma_ufx_scan_skip(ls: Seq<Seq<char>>, i: int, cur: int, lim: int, j: 
     if j < i { assert(ufx_here(ls, i, cur) is None); lemma_ufx_scan_skip(ls, i - 1, cur, lim, j); }
 }
 /// C18 ("when", usefixtures argument list): a line i of the window (cursor line and the 10 lines above it) that contains the text
-/// `usefixtures(` - first at character k - such that more '(' than ')' follow from there to the END of the cursor line, with no
-/// nearer line deciding, yields UsefixturesDecorator.  NOTE what is not required: that the line is a decorator or a pytestmark
-/// assignment (any text counts: `def test_usefixtures(`, `# see usefixtures(`), and where on the cursor line the cursor is.
+/// `.usefixtures(` (the mark call with its dot, /repo 14e4153) - first at character k - whose call is not closed at the END of the
+/// cursor line, with no nearer line deciding, yields UsefixturesDecorator.  NOTE what is still not required (remaining
+/// departure, FINDING): that the text is code - a comment or string that spells the dotted call (`# use
+/// @pytest.mark.usefixtures() here`) matches like a decorator (scenario ss3_C18_comment_mention_dotted) - and where on the
+/// cursor line the cursor is.
 //@tags C18
 pub proof fn lemma_C18_unclosed_usefixtures_call_in_window_is_usefixtures(ls: Seq<Seq<char>>, cur: int, i: int)
     requires 0 <= i <= cur < ls.len(), sat_sub(cur, ufx_window()) <= i,
@@ -386,7 +388,7 @@ pub proof fn lemma_C18_cursor_line_with_unclosed_usefixtures_call(ls: Seq<Seq<ch
 {
     lemma_C18_unclosed_usefixtures_call_in_window_is_usefixtures(ls, cur, cur);
 }
-/// C18 ("only when"): without the text `usefixtures(` on the cursor line or one of the 10 lines above it, no decorator context
+/// C18 ("only when"): without the text `.usefixtures(` on the cursor line or one of the 10 lines above it, no decorator context
 //@tags C18
 pub proof fn lemma_C18_no_usefixtures_text_in_window_is_none(ls: Seq<Seq<char>>, cur: int)
     requires 0 <= cur < ls.len(),
@@ -397,6 +399,39 @@ pub proof fn lemma_C18_no_usefixtures_text_in_window_is_none(ls: Seq<Seq<char>>,
     assert forall|q: int| lim < q <= cur implies ufx_here(ls, q, cur) is None by { assert(find_k(ls[q], ufx_pat()) is None); }
     lemma_ufx_scan_skip(ls, cur, cur, lim, lim);
     assert(find_k(ls[lim], ufx_pat()) is None);
+}
+/// the bare word, as the source searched it before /repo 14e4153
+pub open spec fn ufx_bare() -> Seq<char> { "usefixtures("@ }
+proof fn lemma_ufx_dotted_is_dot_plus_bare()
+    ensures ufx_lit() =~= seq!['.'] + ufx_bare(), ufx_bare().len() == 12,
+{
+    lemma_ufx_lit();
+    reveal_strlit("usefixtures(");
+}
+/// C18 ("only when"; repaired in /repo 14e4153, formerly two FINDINGs): the bare text `usefixtures(` NOT preceded by a dot - a
+/// comment `# see usefixtures() for details`, the signature `def test_usefixtures(` - is not the searched pattern: a window in
+/// which every occurrence of `usefixtures(` is at the line start or follows a character other than '.' yields None from this
+/// helper (scenarios ss3_C18_comment_mention / ss3_C18_test_named_usefixtures no longer reproduce)
+//@tags C18
+pub proof fn lemma_C18_usefixtures_text_without_dot_is_none(ls: Seq<Seq<char>>, cur: int)
+    requires 0 <= cur < ls.len(),
+        forall|j: int, q: int| sat_sub(cur, ufx_window()) <= j <= cur && 1 <= q && #[trigger] occurs_at(ls[j], PatV::Str(ufx_bare()), q)
+            ==> ls[j][q - 1] != '.',
+    ensures op_usefx_ctx(ls, cur) is None,
+{
+    lemma_ufx_dotted_is_dot_plus_bare();
+    assert forall|j: int| sat_sub(cur, ufx_window()) <= j <= cur implies find_k(#[trigger] ls[j], ufx_pat()) is None by {
+        lemma_find_k(ls[j], ufx_pat());
+        if let Some(k) = find_k(ls[j], ufx_pat()) {
+            let l = ls[j];
+            assert(l.subrange(k, k + 13) == ufx_lit());
+            assert(l[k] == l.subrange(k, k + 13)[0]);
+            assert(l.subrange(k + 1, k + 13) =~= ufx_lit().subrange(1, 13));
+            assert(ufx_lit().subrange(1, 13) =~= ufx_bare());
+            assert(occurs_at(l, PatV::Str(ufx_bare()), k + 1));
+        }
+    }
+    lemma_C18_no_usefixtures_text_in_window_is_none(ls, cur);
 }
 proof fn lemma_ufx_scan_some(ls: Seq<Seq<char>>, i: int, cur: int, lim: int)
     requires 0 <= lim <= i,
@@ -453,29 +488,29 @@ pub proof fn lemma_C18_FINDING_text_fallback_never_answers_parametrize(ls: Seq<S
 {
     lemma_C18_usefixtures_answer_has_a_cause_in_window(ls, cur);
 }
-/// in a text that starts with `usefixtures(`: the first '(' is character 11 = byte 11, byte 12 is character 12
+/// in a text that starts with `.usefixtures(`: the first '(' is character 12 = byte 12, byte 13 is character 13
 proof fn lemma_ufx_tail(tail: Seq<char>)
     requires starts(tail, ufx_lit()),
-    ensures find_k(tail, PatV::Ch('(')) == Some(11int), boff(tail, 11) == 11, boff(tail, 12) == 12, tail.len() >= 12, tail[11] == '(',
-        forall|j: int| 0 <= j < 11 ==> tail[j] != '(' && #[trigger] tail[j] != ')',
-        pd_chars(pd0(), tail, 12) == (PD { depth: 1, closed: false }),
+    ensures find_k(tail, PatV::Ch('(')) == Some(12int), boff(tail, 12) == 12, boff(tail, 13) == 13, tail.len() >= 13, tail[12] == '(',
+        forall|j: int| 0 <= j < 12 ==> tail[j] != '(' && #[trigger] tail[j] != ')',
+        pd_chars(pd0(), tail, 13) == (PD { depth: 1, closed: false }),
 {
     lemma_ufx_lit();
     let u = ufx_lit();
-    assert(tail.subrange(0, 12) == u);
-    assert forall|j: int| 0 <= j < 12 implies #[trigger] tail[j] == u[j] by { assert(tail.subrange(0, 12)[j] == tail[j]); }
+    assert(tail.subrange(0, 13) == u);
+    assert forall|j: int| 0 <= j < 13 implies #[trigger] tail[j] == u[j] by { assert(tail.subrange(0, 13)[j] == tail[j]); }
     lemma_find_k(tail, PatV::Ch('('));
-    assert(occurs_at(tail, PatV::Ch('('), 11));
-    assert(tail.take(11) =~= u.take(11));
-    assert(tail.take(12) =~= u);
-    assert(u.take(11) =~= seq!['u', 's', 'e', 'f', 'i', 'x', 't', 'u', 'r', 'e', 's']);
-    lemma_ascii_blen(u.take(11));
+    assert(occurs_at(tail, PatV::Ch('('), 12));
+    assert(tail.take(12) =~= u.take(12));
+    assert(tail.take(13) =~= u);
+    assert(u.take(12) =~= seq!['.', 'u', 's', 'e', 'f', 'i', 'x', 't', 'u', 'r', 'e', 's']);
+    lemma_ascii_blen(u.take(12));
     let z = pd0();
     assert(pd_chars(z, tail, 0) == z);
     assert(pd_chars(z, tail, 1) == z); assert(pd_chars(z, tail, 2) == z); assert(pd_chars(z, tail, 3) == z);
     assert(pd_chars(z, tail, 4) == z); assert(pd_chars(z, tail, 5) == z); assert(pd_chars(z, tail, 6) == z);
     assert(pd_chars(z, tail, 7) == z); assert(pd_chars(z, tail, 8) == z); assert(pd_chars(z, tail, 9) == z);
-    assert(pd_chars(z, tail, 10) == z); assert(pd_chars(z, tail, 11) == z);
+    assert(pd_chars(z, tail, 10) == z); assert(pd_chars(z, tail, 11) == z); assert(pd_chars(z, tail, 12) == z);
 }
 /// C18 (the same-line rule, read at character level): on the cursor line with a balanced count, the answer is
 /// UsefixturesDecorator exactly when the LAST ')' of the line directly follows the `usefixtures(` (the empty call
@@ -484,14 +519,14 @@ proof fn lemma_ufx_tail(tail: Seq<char>)
 pub proof fn lemma_C18_same_line_rule(tail: Seq<char>)
     requires starts(tail, ufx_lit()),
     ensures ufx_same_line(tail) == (match rfind_k(tail, PatV::Ch(')')) {
-        Some(c) => if c == 12 { Some(CtxV::Usefixtures) } else { None },
+        Some(c) => if c == 13 { Some(CtxV::Usefixtures) } else { None },
         None => Some(CtxV::Usefixtures),
     }),
 {
     lemma_ufx_tail(tail);
     lemma_rfind_k(tail, PatV::Ch(')'));
     if let Some(c) = rfind_k(tail, PatV::Ch(')')) {
-        lemma_boff_order(tail, c, 12);
+        lemma_boff_order(tail, c, 13);
     }
 }
 proof fn lemma_pd_no_close(st: PD, s: Seq<char>, a: int, n: int)
@@ -504,12 +539,12 @@ proof fn lemma_pd_no_close(st: PD, s: Seq<char>, a: int, n: int)
 /// the counter from the pattern on is never negative: open with a count >= 1 or closed at 0 (pd_good), on the pattern's line and
 /// on every later line; in particular `depth == 0` means "the call is closed"
 proof fn lemma_pd_tail_good(tail: Seq<char>, n: int)
-    requires starts(tail, ufx_lit()), 12 <= n <= tail.len(),
+    requires starts(tail, ufx_lit()), 13 <= n <= tail.len(),
     ensures pd_good(pd_chars(pd0(), tail, n)),
     decreases n,
 {
     lemma_ufx_tail(tail);
-    if n > 12 { lemma_pd_tail_good(tail, n - 1); }
+    if n > 13 { lemma_pd_tail_good(tail, n - 1); }
 }
 proof fn lemma_ufx_depth_good(ls: Seq<Seq<char>>, i: int, cur: int)
     requires 0 <= i <= cur < ls.len(), find_k(ls[i], ufx_pat()) is Some,
@@ -520,7 +555,7 @@ proof fn lemma_ufx_depth_good(ls: Seq<Seq<char>>, i: int, cur: int)
     let tail = ls[i].skip(k);
     lemma_ufx_lit();
     lemma_find_k(ls[i], ufx_pat());
-    assert(tail.subrange(0, 12) =~= ls[i].subrange(k, k + 12));
+    assert(tail.subrange(0, 13) =~= ls[i].subrange(k, k + 13));
     lemma_pd_tail_good(tail, tail.len() as int);
     lemma_pd_lines_good(pd_line(pd0(), tail), ls, i + 1, cur - i);
 }
@@ -534,8 +569,8 @@ pub proof fn lemma_C18_no_close_paren_branch_unreachable(tail: Seq<char>)
     lemma_ufx_tail(tail);
     lemma_rfind_k(tail, PatV::Ch(')'));
     if rfind_k(tail, PatV::Ch(')')) is None {
-        assert forall|j: int| 12 <= j < tail.len() implies tail[j] != ')' by { assert(!occurs_at(tail, PatV::Ch(')'), j)); }
-        lemma_pd_no_close(pd0(), tail, 12, tail.len() as int);
+        assert forall|j: int| 13 <= j < tail.len() implies tail[j] != ')' by { assert(!occurs_at(tail, PatV::Ch(')'), j)); }
+        lemma_pd_no_close(pd0(), tail, 13, tail.len() as int);
     }
 }
 /// C18 FINDING ("when" fails): a `usefixtures(...)` call that is CLOSED on the cursor line and has any content - the cursor may
@@ -546,14 +581,14 @@ pub proof fn lemma_C18_no_close_paren_branch_unreachable(tail: Seq<char>)
 pub proof fn lemma_C18_FINDING_balanced_call_with_content_on_cursor_line_is_none(ls: Seq<Seq<char>>, cur: int)
     requires 0 <= cur < ls.len(), find_k(ls[cur], ufx_pat()) is Some,
         pd_line(pd0(), ls[cur].skip(find_k(ls[cur], ufx_pat())->0)).depth == 0,
-        rfind_k(ls[cur].skip(find_k(ls[cur], ufx_pat())->0), PatV::Ch(')')) != Some(12int),
+        rfind_k(ls[cur].skip(find_k(ls[cur], ufx_pat())->0), PatV::Ch(')')) != Some(13int),
     ensures op_usefx_ctx(ls, cur) is None,
 {
     let k = find_k(ls[cur], ufx_pat())->0;
     let tail = ls[cur].skip(k);
     lemma_ufx_lit();
     lemma_find_k(ls[cur], ufx_pat());
-    assert(tail.subrange(0, 12) =~= ls[cur].subrange(k, k + 12));
+    assert(tail.subrange(0, 13) =~= ls[cur].subrange(k, k + 13));
     lemma_C18_same_line_rule(tail);
     lemma_C18_no_close_paren_branch_unreachable(tail);
 }
